@@ -6,14 +6,18 @@
 (* object reaped by destroyObjects; callback and destructor never run under the *)
 (* container's lock (they may re-enter it: no deadlock).                        *)
 EXTENDS TraceBase
-VARIABLES l, added, owned, dead, cbd, inop, cbOn, gone
+VARIABLES l, added, owned, dead, cbd, inop, cbOn, gone, bt
 mv == <<added, owned, dead, cbd, inop, cbOn, gone>>
 MaxT == 8
 Viol(what) == MonViol(l, what)
-TInit == l = 1 /\ added = {} /\ owned = {} /\ dead = {} /\ cbd = {} /\ inop = [t \in 0..MaxT |-> ""] /\ cbOn = TRUE /\ gone = FALSE /\ TLCSet(1, 0)
+TInit == l = 1 /\ added = {} /\ owned = {} /\ dead = {} /\ cbd = {} /\ inop = [t \in 0..MaxT |-> ""] /\ cbOn = TRUE /\ gone = FALSE /\ bt = {} /\ TLCSet(1, 0)
 TNext ==
     /\ l <= Len(Tr)
     /\ l' = l + 1
+    \* bt: threads whose current destroyObjects call saw its callback throw (C20: the rest of that batch is destroyed without
+    \* callbacks while the exception unwinds; the exception must not leave destroyObjects)
+    /\ bt' = IF Tr[l].k = "reset" THEN {} ELSE IF Tr[l].k = "cbthrow" THEN bt \cup {Tr[l].t}
+             ELSE IF Tr[l].k = "ret" THEN bt \ {Tr[l].t} ELSE bt
     /\ LET e == Tr[l] IN
        CASE e.k = "reset" -> added' = {} /\ owned' = {} /\ dead' = {} /\ cbd' = {} /\ inop' = [t \in 0..MaxT |-> ""] /\ cbOn' = (e.p.cb = 1) /\ gone' = FALSE
          [] e.k = "call" ->
@@ -31,7 +35,7 @@ TNext ==
               /\ (e.u = 1) => Viol("C16: an object's destructor runs under the container's lock")
               /\ (e.i \in dead) => Viol("C16: an object is destroyed twice")
               /\ (e.i \in owned) => Viol("C16: an object is destroyed while another owner still holds it")
-              /\ (cbOn /\ e.t # 0 /\ inop[e.t] = "destroy" /\ e.i \notin cbd) => Viol("C16: an object reaped by destroyObjects was destroyed without its callback")
+              /\ (cbOn /\ e.t # 0 /\ inop[e.t] = "destroy" /\ e.i \notin cbd /\ e.t \notin bt) => Viol("C16: an object reaped by destroyObjects was destroyed without its callback")
               \* delayed destruction: once handed over, an object dies in a destroyObjects call or with the container, never at the
               \* moment its last outside owner lets go (the container would have lost it)
               /\ (e.t # 0 /\ inop[e.t] \notin {"destroy", "add_temp"}) => Viol("C16: the container lost an object: it is destroyed by the thread dropping the last outside reference, not by destroyObjects or the container's destructor")
@@ -44,9 +48,9 @@ TNext ==
               /\ (inop[e.t] \in {"add", "add_temp", "size"}) => Viol("C16: add / size waits for a callback or destructor: user code runs under the container's lock")
               /\ UNCHANGED mv
          [] e.k \in {"deadlock", "budget"} -> Viol("C16: deadlock (user code re-entering the container, or a leaked lock)") /\ UNCHANGED mv
-         [] e.k \in {"crash", "terminate", "escaped"} -> Viol("C16: crash") /\ UNCHANGED mv
+         [] e.k \in {"crash", "terminate", "escaped"} -> Viol("C16: crash (C20: an exception of user code escaped or terminated the program)") /\ UNCHANGED mv
          [] OTHER -> UNCHANGED mv
     /\ Mark(l)
-TSpec == TInit /\ [][TNext]_<<l, mv>>
+TSpec == TInit /\ [][TNext]_<<l, mv, bt>>
 Accepted == IF TLCGet(1) = Len(Tr) THEN TRUE ELSE Rejected(TLCGet(1) + 1)
 =============================================================================
